@@ -997,7 +997,7 @@ class Interp:
                     tid = self.operand_ty(t["o"])
                     bits = self.as_bits(v, tid)
                     if bits is None:
-                        st.tag("time-branch" if is_tainted(v) else "opaque-switch")
+                        st.tag("time-branch" if is_tainted(v) else ("host-branch" if isinstance(v, Opaque) and v.tag == "host" else "opaque-switch"))
                         targets = sorted(set([bb for _, bb in t["targets"]] + [t["otherwise"]]))
                         feas = [(bb, st.pc) for bb in targets]
                     else:
